@@ -128,7 +128,7 @@ func c09Exec(run *ev.Run, c ev.Case) {
 		if b.Random > 0 {
 			r := rng(b.Seed, "c09random")
 			h := c09Hist{Suite: r.Intn(9)}
-			kinds := []string{"devid", "authcaps", "chassis", "raw", "serfail", "sl-authcaps", "sl-guid", "sl-authcaps", "sl-newsession", "badlun", "badlun7", "huge480", "huge600", "huge1400", "close-lost", "close-refused"}
+			kinds := []string{"devid", "authcaps", "chassis", "raw", "serfail", "sl-authcaps", "sl-guid", "sl-authcaps", "sl-newsession", "badlun", "badlun7", "huge480", "huge600", "huge1400", "close-lost", "close-refused", "flaky1", "flaky2"}
 			for i := 0; i < b.Random; i++ {
 				k := kinds[r.Intn(len(kinds))]
 				var sc []string
@@ -200,6 +200,19 @@ func c09Exec(run *ev.Run, c ev.Case) {
 					cmds = append(cmds, cl, c09Cmd{Kind: "devid"}, cl, cl, c09Cmd{Kind: "raw", Script: []string{"busy"}}, c09Cmd{Kind: "close-refused", Script: []string{"cc:87"}})
 					c09History(run, c09Hist{Suite: n + len(cl.Kind), Cmds: cmds})
 				}
+			}
+			for _, fl := range []c09Cmd{{Kind: "flaky1", Script: []string{"busy"}}, {Kind: "flaky1", Script: []string{"garbage:noise", "busy"}}, {Kind: "flaky2", Script: []string{"busy", "tmo"}}, {Kind: "flaky2", Script: []string{"badsig", "busy", "busy"}}} {
+				for n := 0; n <= 2; n++ {
+					var cmds []c09Cmd
+					for i := 0; i < n; i++ {
+						cmds = append(cmds, c09Cmd{Kind: kinds[(i+len(fl.Script))%4]})
+					}
+					cmds = append(cmds, fl, c09Cmd{Kind: "devid"}, fl, c09Cmd{Kind: "raw", Script: []string{"busy"}})
+					c09History(run, c09Hist{Suite: n + len(fl.Script), Cmds: cmds})
+				}
+			}
+			for i := 0; i < 12; i++ {
+				c09TwoSessions(run, b.Seed*131+int64(i), c)
 			}
 			for _, bl := range []string{"badlun", "badlun7", "serfail", "huge480", "huge600", "huge1400"} {
 				for n := 0; n <= 2; n++ {
@@ -311,6 +324,11 @@ func c09Call(kind string, sess *bmc.V2Session, st *bmc.V2SessionlessTransport) (
 		// Close Session that does not succeed (reply lost / refused by the BMC / made with a
 		// finished context): the session lives on and so does its numbering
 		return func(ctx context.Context) (ipmi.CompletionCode, error) { return 0, sess.Close(ctx) }, nil, 0
+	case "flaky1", "flaky2":
+		// a caller-defined request that serialises once (twice) and fails afterwards: the
+		// attempt that could not be built must not cost a number, the ones sent did
+		cmd := &RawCmd{Op: ipmi.Operation{Function: ipmi.NetworkFunctionAppReq, Command: 0x44}, Req: []byte{4, 3, 2, 1}, FailAfter: int(kind[5] - '0')}
+		return func(ctx context.Context) (ipmi.CompletionCode, error) { return sess.SendCommand(ctx, cmd) }, []byte{0xaa, 0xbb}, 0
 	case "badlun7":
 		cmd := &RawCmd{Op: ipmi.Operation{Function: ipmi.NetworkFunctionAppReq, Command: 0x42}, LUN: 7, NoReq: true}
 		return func(ctx context.Context) (ipmi.CompletionCode, error) { return sess.SendCommand(ctx, cmd) }, []byte{0xaa, 0xbb}, 0
@@ -521,4 +539,105 @@ func c09UDPAck(run *ev.Run, seed int64, cs ev.Case) {
 	if len(seqs) < 4 {
 		run.Inconclusive(fmt.Sprintf("only %d in-session datagrams reached the BMC", len(seqs)))
 	}
+}
+
+// c09TwoSessions: two sessions opened over one connection (a BMC with two session
+// slots) and used alternately. Each session numbers its own datagrams 1, 2, 3, ...
+func c09TwoSessions(run *ev.Run, seed int64, cs ev.Case) {
+	run.Eval(1)
+	r := rng(seed, "c09two")
+	cfgs := []refbmc.Config{defaultCfg(r), defaultCfg(r)}
+	cfgs[1].SID = cfgs[0].SID + 0x100
+	su := stdSuites()[r.Intn(9)]
+	var slots [2]*refbmc.BMC
+	busy := 0
+	for i := range slots {
+		cfgs[i].Suites = []refbmc.Suite{su}
+		slots[i] = refbmc.New(cfgs[i])
+		slots[i].Handler = func(e *refbmc.Event) (byte, []byte, bool) {
+			if e.Kind != "session-ipmi" {
+				return 0, nil, false
+			}
+			if busy > 0 {
+				busy--
+				return 0xc0, nil, true
+			}
+			return 0, []byte{0x20, 0x81, 0x03, 0x15, 0x02, 0xbf, 0x57, 0x01, 0x00, 0x34, 0x12}, true
+		}
+	}
+	target := 0
+	T := memtr.New(func(n int, req []byte) ([]byte, error) {
+		hd := parseHdr(req)
+		for i := range slots {
+			if hd.OK && hd.SID == cfgs[i].SID {
+				return slots[i].Handle(req), nil
+			}
+		}
+		return slots[target].Handle(req), nil
+	})
+	T.Mode = memtr.Window
+	st := bmc.VerifNewV2SessionlessTransport(T, 10*time.Second, &backoff.ZeroBackOff{})
+	ctx, cancel := bg(20 * time.Second)
+	defer cancel()
+	var sessions [2]*bmc.V2Session
+	sent := [2]int{}
+	order := ""
+	open := func(i int) bool {
+		target = i
+		s, err := st.NewV2Session(ctx, &bmc.V2SessionOpts{SessionOpts: bmc.SessionOpts{Username: cfgs[i].Username, Password: cfgs[i].Password, MaxPrivilegeLevel: ipmi.PrivilegeLevelAdministrator}, CipherSuites: []ipmi.CipherSuite{libSuite(su)}})
+		if err != nil {
+			run.Violation("C09:handshake-failed", fmt.Sprintf("session %d on the shared connection: %v", i+1, err), cs, nil)
+			return false
+		}
+		sessions[i], sent[i] = s, 0
+		order += fmt.Sprintf("open%d ", i+1)
+		return true
+	}
+	if !open(0) {
+		return
+	}
+	use := func(i int) bool {
+		if r.Intn(4) == 0 {
+			busy = 1 + r.Intn(2)
+		}
+		nb := busy
+		from := T.Len()
+		cctx, ccancel := context.WithTimeout(ctx, 5*time.Second)
+		_, err := sessions[i].SendCommand(cctx, &ipmi.GetDeviceIDCmd{})
+		ccancel()
+		order += fmt.Sprintf("use%d(busy %d) ", i+1, nb)
+		for _, s := range T.Since(from) {
+			hd := parseHdr(s.Bytes)
+			sent[i]++
+			run.Event("datagrams-monitored", 1)
+			if !hd.OK || hd.SID != cfgs[i].SID || hd.Seq != uint32(sent[i]) {
+				run.Violation("C09:wrong-sequence:two-sessions", fmt.Sprintf("history [%s]: datagram %d of session %d carries session ID %#x sequence %d (its BMC session ID is %#x)", order, sent[i], i+1, hd.SID, hd.Seq, cfgs[i].SID), cs, nil)
+				return false
+			}
+		}
+		if err != nil {
+			run.Violation("C09:command-failed:two-sessions", fmt.Sprintf("history [%s]: %v; BMC slots: %v %v", order, err, problems(slots[0]), problems(slots[1])), cs, nil)
+			return false
+		}
+		if got := sessions[i].AuthenticatedSequenceNumbers.Inbound; got != uint32(sent[i]) {
+			run.Violation("C09:counter-disagrees:two-sessions", fmt.Sprintf("history [%s]: session %d counter %d after %d datagrams", order, i+1, got, sent[i]), cs, nil)
+			return false
+		}
+		return true
+	}
+	for k := r.Intn(3); k > 0; k-- {
+		if !use(0) {
+			return
+		}
+	}
+	if !open(1) {
+		return
+	}
+	for k := 0; k < 10; k++ {
+		if !use(r.Intn(2)) {
+			return
+		}
+	}
+	run.Event("two-session-histories", 1)
+	run.Nontrivial(fmt.Sprintf("two|%v|%d|%d", su, sent[0] > 5, sent[1] > 5))
 }
